@@ -900,7 +900,7 @@ def encode_module_chunks(m, in_project, var, position):
         cv += list(m["payload"]["stored_values"][:n])
         names += ["user_defined_%d" % (i + 1) for i in range(n)]
     keep = len(cv)
-    if var.cval_keep and position in var.cval_keep:
+    if var.cval_keep and position in var.cval_keep and m["class"] != "MetaModule":
         keep = min(keep, var.cval_keep[position])
     for raw in cv[:keep]:
         out.append((b"CVAL", struct.pack("<i", raw)))
